@@ -462,7 +462,14 @@ Inductive op :=
 | ONewDataset (d : dsobj) (nested : option dsobj)  (* the user builds a plain Dataset (class forced to Dataset) *)
 | OSetMeaning (a : nat) (m : string)               (* obj.CodeMeaning = m *)
 | OSetNestedMeaning (a : nat) (m : string)         (* obj.<sequence>[0].CodeMeaning = m *)
-| OEq (a b : nat).                                 (* heap[a] == heap[b] *)
+| OEq (a b : nat)                                  (* heap[a] == heap[b] *)
+(* Extension 5 (objects with a past): user edits of the code itself, copies outside the API, and uses as a key *)
+| OSetCode (a : nat) (k : attr) (v : string)       (* del the other code-value attributes; obj.<k> = v *)
+| OSetScheme (a : nat) (s : string)                (* obj.CodingSchemeDesignator = s *)
+| OSetVersion (a : nat) (ver : option string)      (* obj.CodingSchemeVersion = ver / del obj.CodingSchemeVersion *)
+| OClone (a : nat)                                 (* copy.deepcopy(obj) or pickle.loads(pickle.dumps(obj)) *)
+| OHash (a : nat)                                  (* hash(obj) *)
+| OLookup (a b : nat).                             (* {heap[a]} / {heap[a]: 1} probed with heap[b] and with pydicom Codes *)
 
 Definition plain (d : dsobj) : dsobj :=
   DS (d_cv d) (d_lcv d) (d_urn d) (d_meaning d) (d_scheme d) (d_version d) false.
@@ -473,6 +480,45 @@ Fixpoint kid_of (kids : list (nat * nat)) (a : nat) : option nat :=
   | (p, c) :: t => if Nat.eqb p a then Some c else kid_of t a
   end.
 Definition as_pyval (d : dsobj) : pyval := if d_cc d then VObj (HD d) else VPlain d.
+
+(* ---- Extension 5: objects with a past ---------------------------------------------------------------
+   hash(obj) of the real class reads the attributes at the time of the call: in the model it is a function
+   of the CURRENT record and nothing else (no operation below stores anything a later hash could see).
+   A plain pydicom Dataset is unhashable (Dataset.__hash__ is None -> TypeError). *)
+Definition set_code (k : attr) (v : string) (d : dsobj) : dsobj :=
+  DS (match k with ACodeValue => Some v | _ => None end)
+     (match k with ALongCodeValue => Some v | _ => None end)
+     (match k with AURNCodeValue => Some v | _ => None end)
+     (d_meaning d) (d_scheme d) (d_version d) (d_cc d).
+Definition set_scheme (s : string) (d : dsobj) : dsobj :=
+  DS (d_cv d) (d_lcv d) (d_urn d) (d_meaning d) (Some s) (d_version d) (d_cc d).
+Definition set_version (ver : option string) (d : dsobj) : dsobj :=
+  DS (d_cv d) (d_lcv d) (d_urn d) (d_meaning d) (d_scheme d) ver (d_cc d).
+Definition hashable (d : dsobj) : res obj := if d_cc d then Ok (HD d) else Err "TypeError".
+(* Code(obj.value, obj.scheme_designator, 'x', obj.scheme_version): the pydicom representation of the code
+   the object carries now *)
+Definition code_of (d : dsobj) : res code :=
+  bind (ds_scheme d) (fun s =>
+    match ds_value d with Some v => Ok (Code v s "x" (ds_version d)) | None => Err "TypeError" end).
+(* hash(obj): the hashed string, and whether it is the hash of the pydicom Code of the same scheme and value *)
+Definition hash_obs (d : dsobj) : res (string * bool) :=
+  bind (hashable d) (fun o => bind (hash_key o) (fun k =>
+    bind (code_of d) (fun c => bind (hash_eq o (PD c)) (fun e => Ok (k, e))))).
+(* s = {oa}; d = {oa: 1}; [ob in s; d.get(ob) == 1; Code(ob) in s; ob in {Code(oa)}; Code(oa) in s; oa in {Code(oa)}]
+   identities: heap addresses for the objects, n and n+1 (n = size of the heap) for the two fresh Codes *)
+Definition lookup_obs (srt : string -> option string) (n a b : nat) (da db : dsobj) : res (list bool) :=
+  bind (hashable da) (fun oa => bind (set_of_list srt [(a, oa)]) (fun s =>
+  bind (dict_of_list srt [((a, oa), 1)]) (fun d =>
+  bind (hashable db) (fun ob =>
+  bind (set_contains srt s (b, ob)) (fun r0 =>
+  bind (dict_get srt d (b, ob)) (fun g =>
+  bind (code_of da) (fun ca => bind (code_of db) (fun cb =>
+  bind (set_contains srt s (S n, PD cb)) (fun r2 =>
+  bind (set_of_list srt [(n, PD ca)]) (fun sc =>
+  bind (set_contains srt sc (b, ob)) (fun r3 =>
+  bind (set_contains srt s (n, PD ca)) (fun r4 =>
+  bind (set_contains srt sc (a, oa)) (fun r5 =>
+  Ok [r0; match g with Some 1 => true | _ => false end; r2; r3; r4; r5]))))))))))))).
 
 Definition step (srt : string -> option string) (st : state) (o : op) : state * val :=
   let '(h, kids) := st in
@@ -550,6 +596,44 @@ Definition step (srt : string -> option string) (st : state) (o : op) : state * 
                else vrb (bind (py_eq srt (as_pyval da) (as_pyval db)) (fun r => Ok (r && nested_eq))))
       | _, _ => (st, VErr "dangling")
       end
+  | OSetCode a k v =>
+      match nth_error h a with
+      | Some d => (update h a (set_code k v d), kids, vnat a)
+      | None => (st, VErr "dangling")
+      end
+  | OSetScheme a s =>
+      match nth_error h a with
+      | Some d => (update h a (set_scheme s d), kids, vnat a)
+      | None => (st, VErr "dangling")
+      end
+  | OSetVersion a ver =>
+      match nth_error h a with
+      | Some d => (update h a (set_version ver d), kids, vnat a)
+      | None => (st, VErr "dangling")
+      end
+  | OClone a =>
+      (* same class, same elements, fresh object; the nested item is copied too; nothing else is carried over *)
+      match nth_error h a with
+      | Some d =>
+          match kid_of kids a with
+          | Some c => match nth_error h c with
+                      | Some dc => ((h ++ [d; dc])%list, (length h, S (length h)) :: kids, vnat (length h))
+                      | None => ((h ++ [d])%list, kids, vnat (length h))
+                      end
+          | None => ((h ++ [d])%list, kids, vnat (length h))
+          end
+      | None => (st, VErr "dangling")
+      end
+  | OHash a =>
+      match nth_error h a with
+      | Some d => (st, vres (fun p => VL [VS (fst p); VB (snd p)]) (hash_obs d))
+      | None => (st, VErr "dangling")
+      end
+  | OLookup a b =>
+      match nth_error h a, nth_error h b with
+      | Some da, Some db => (st, vres vb_list (lookup_obs srt (length h) a b da db))
+      | _, _ => (st, VErr "dangling")
+      end
   end.
 
 Fixpoint run_ops (srt : string -> option string) (st : state) (ops : list op) : state * list val :=
@@ -562,11 +646,14 @@ Fixpoint run_ops (srt : string -> option string) (st : state) (ops : list op) : 
 Definition vraw (d : dsobj) : val :=
   VL [VB (d_cc d); vostr (d_cv d); vostr (d_lcv d); vostr (d_urn d); vostr (d_meaning d); vostr (d_scheme d);
       vostr (d_version d)].
-(* results of the calls, every object at the end, the nested-item relation *)
+(* results of the calls, every object at the end, the nested-item relation, and hash(obj) of every object at
+   the end (the hashed string; in a history that crossed a process boundary by pickle this is observed in the
+   receiving interpreter, whose string hash is another function H: nothing in the model depends on H) *)
 Definition run_history (tbl : list (string * string)) (ops : list op) : val :=
   let '((h, kids), vs) := run_ops (assoc tbl) ([], []) ops in
   VL [VL vs; VL (map vraw h);
-      VL (map (fun a => vopt vnat (kid_of kids a)) (seq 0 (length h)))].
+      VL (map (fun a => vopt vnat (kid_of kids a)) (seq 0 (length h)));
+      VL (map (fun d => vres VS (bind (hashable d) hash_key)) h)].
 
 (* ======================================================================================
    Extension 4: a code item written with dcmwrite and read with dcmread.
